@@ -266,6 +266,7 @@ impl Prop for Equiv {
         // arguments are out of its reach, a line repeated 2^16 times is not
         let huge = crate::checks::hugefan::strategy().prop_map(|mut h| {
             if !h.repeated_line && h.k > 300 {
+                // (the million-argument case of the fixed list has an acyclic core instead)
                 h.repeated_line = true;
             }
             EquivAny::HugeFan(h)
@@ -284,7 +285,17 @@ impl Prop for Equiv {
                 v.push(EquivAny::Small(GraphCase { g, pres: Pres::Iccma }));
             }
         }
-        (v, format!("all digraphs on 0..={} arguments, direct and ICCMA presentations", max))
+        // one framework of 2^20 + 12 arguments that the grounded extension decides completely (the reduction
+        // is linear there; with undecided arguments its tables are quadratic): counters and list lengths of 20 bits
+        v.push(EquivAny::HugeFan(crate::checks::hugefan::HugeFan {
+            core: gen::AbsGraph { n: 4, att: vec![(0, 1), (1, 2), (2, 3)] },
+            target: 0,
+            k: (1 << 20) + 7,
+            defeated: 5,
+            repeated_line: false,
+            attacker_defeated: false,
+        }));
+        (v, format!("all digraphs on 0..={} arguments, direct and ICCMA presentations; one grounded-decided framework of 2^20+12 arguments", max))
     }
     fn run(&self, any: &EquivAny, rec: &mut Rec) -> CheckResult {
         let case = match any {
